@@ -214,8 +214,8 @@ func runC19(tier string, r *rng) {
 	for _, n := range []int{2, 3, 5} {
 		c19Flight(n, "ok:40", "")
 		c19Flight(n, "fail", "")
-		c19Flight(n, "ok:40", "fail")   // a failed request earlier, then a shared successful one
-		c19Flight(n, "fail", "ok:30")   // a successful request earlier, then a shared failing one
-		c19Flight(n, "softbad:44", "")  // the shared answer is a soft-failing forged head: nobody may adopt it
+		c19Flight(n, "ok:40", "fail")  // a failed request earlier, then a shared successful one
+		c19Flight(n, "fail", "ok:30")  // a successful request earlier, then a shared failing one
+		c19Flight(n, "softbad:44", "") // the shared answer is a soft-failing forged head: nobody may adopt it
 	}
 }
